@@ -367,6 +367,9 @@ class Impl:
         h = o[0]
         if h == 'OMakespan':
             return ps.ObjectiveMinimizeMakespan()
+        if h == 'ORaw':
+            return ps.Objective(name='O%d' % nval(o[1]), target=self.term(o[2]), weight=zval(o[3]),
+                                kind='maximize' if o[4] else 'minimize')
         if h == 'OMaxUtilization':
             return ps.ObjectiveMaximizeResourceUtilization(resource=self.resobj(o[1]))
         if h == 'OMinCost':
